@@ -20,7 +20,13 @@ META = {
         'expand_section_groups with an independent reading of the ABC 2.1 '
         'rules written in the harness. A second harness checks that a tune '
         'with an unsupported construct lands in the exception list without '
-        'changing the other tune of the tunebook.',
+        'changing the other tune of the tunebook. h_keys reads a scale of all '
+        '14 note letters under each of the 105 key spellings (tonic x mode '
+        'with <= 7 sharps / flats, computed in the harness from the circle of '
+        'fifths) in 6 ways of writing the mode; h_book parses tunebooks of '
+        '1..4 good / unparsable tunes (file header, blank-line runs, CRLF, no '
+        'final newline, from a file, repeated X:) and checks every good tune, '
+        'the order and class of the exceptions, and that nothing is raised.',
     'level_note':
         'Trusted: z3, symproto, the sentinel substitution (the replay writes '
         'the model\'s numbers into the text and runs the unmodified parser). '
@@ -30,7 +36,9 @@ META = {
         '(as for C15); the DURATION / TEMPO / METER / REPEAT-TIME clauses are '
         'decided symbolically over the numerals. ABC constructs outside the '
         'templates (decorations other than those listed, ties, slurs, lyrics, '
-        'line continuations, header-only tunebook sections) are outside.',
+        'line continuations, header-only tunebook sections, a field '
+        'directly behind a bar line without a blank - see FINDING-CANDIDATE '
+        'in jobs()) are outside.',
     'technique':
         'bounded symbolic execution of the real ABC parser with z3: numerals '
         'of the text symbolic through sentinel digits (length / tempo / meter '
@@ -38,6 +46,7 @@ META = {
         'enumerated through solver-closed choices (pitch / key clause: '
         'degenerate, labelled)',
     'functions': [('abc_parser', 'parse_abc_tunebook'),
+                  ('abc_parser', 'parse_abc_tunebook_file'),
                   ('abc_parser', 'ABCTune.__init__'),
                   ('abc_parser', 'ABCTune._parse_music_code'),
                   ('abc_parser', 'ABCTune._parse_information_field'),
@@ -50,15 +59,23 @@ META = {
                   ('sequences_lib', 'expand_section_groups')],
     'assumptions': [
         'numerals: note length multipliers 1..4, divisors {1,2,3,4,8}, L: 1/d '
-        'with d in {1,2,4,8,16}, M: n/d with n in 1..12, d in {2,4,8}, tempo '
-        'rates 30..240',
+        'with d in {1,2,4,8,16} (one job: L:1, 1/32, 1/64), M: n/d with n in '
+        '1..12, d in {2,4,8}, tempo rates 30..240, tempo beats 1/4 3/8 1/2 '
+        'and 1/4+3/8',
+        'no dynamics notated: only "one audible velocity for all notes" is '
+        'claimed, not its value',
+        'unparsable tunes other than chords / tuplets / voices / parts / '
+        'variant endings / invalid characters: only "listed or parsed, never '
+        'raised, other tunes unaffected" is claimed',
         'accidentals propagate within a bar to every octave of the letter (ABC '
         '2.1 default "propagate-accidentals: pitch")',
         'tune texts from the templates of the harness (see bounds)',
     ],
     'bounds': {
-        'quick': 'tunes of <=3 notes, <=2 bars; one inline field; one repeat '
-                 'pair; tunebooks of 2 tunes',
+        'quick': 'tunes of <=4 notes, <=3 bars / 3 lines; <=2 inline or '
+                 'own-line fields; <=2 repeat pairs (counted: x3); all 105 '
+                 'key spellings x 6 mode spellings on a 14-note scale; '
+                 'tunebooks of 1..4 tunes (<=2 unparsable, 17 kinds)',
         'thorough': 'all 15 x 7 key/mode names; 4 notes; nested length forms',
     },
     'outside': ['ABC text outside the templates', 'chords, tuplets, voices, '
@@ -92,6 +109,12 @@ def _key_sig(tonic, mode):
   return _MAJOR_SIG[tonic] + _MODES[mode][0]
 
 
+def _tonic_pc(tonic):
+  """Pitch class of a spelled tonic (Cb = 11, B# = 0, ...)."""
+  return (_PC[tonic[0]] + (1 if '#' in tonic else -1 if 'b' in tonic else
+                           0)) % 12
+
+
 def _sig_accidentals(sig):
   acc = {p: 0 for p in 'ABCDEFG'}
   for i in range(abs(sig)):
@@ -100,6 +123,10 @@ def _sig_accidentals(sig):
     else:
       acc[_FLATS[i]] = -1
   return acc
+
+
+# a comment that would change the tune if it were read as music or as a field
+_COMMENT = ' % [K:G] 3/4 |: ^c2 :|'
 
 
 class _Text(object):
@@ -189,34 +216,48 @@ def _header(c, tx, p):
   xref = c.int('xref', 1, 3) if p.get('xref_symbolic') else 1
   lines = ['X:%s' % tx.num(xref), 'T:first title', 'T:second']
   st = dict(meter=None, unit=None, qpm=120.0, tempo=None, key=None, xref=xref)
+  # 'decor': blanks after the colon of a field and a '%' comment behind field
+  # and music lines (ABC 2.1 3.1.2 / 2.2.3: neither is part of the content)
+  fs = ' ' if p.get('decor') else ''
+  cm = _COMMENT if p.get('decor') else ''
   m = p.get('meter')
   if m == 'n/d':
     n = c.int('m_n', 1, 12)
     d = c.choice('m_d', [2, 4, 8])
-    lines.append('M:%s/%s' % (tx.num(n), tx.num(d)))
+    lines.append('M:%s%s/%s%s' % (fs, tx.num(n), tx.num(d), cm))
     st['meter'] = (n, d)
   elif m in ('C', 'C|'):
-    lines.append('M:' + m)
+    lines.append('M:' + fs + m + cm)
     st['meter'] = (4, 4) if m == 'C' else (2, 2)
   elif m == 'none':
-    lines.append('M:none')
+    lines.append('M:' + fs + 'none' + cm)
   ld = p.get('unit')
   if ld:
-    d = c.choice('l_d', [1, 2, 4, 8, 16])
-    lines.append('L:1/%s' % tx.num(d) if d != 1 or ld == 'frac' else 'L:1')
+    d = c.choice('l_d', p.get('unit_ds', [1, 2, 4, 8, 16]))
+    lines.append('L:' + fs + ('1/%s' % tx.num(d) if d != 1 or ld == 'frac'
+                              else '1') + cm)
     st['unit'] = Fraction(1, d)
   q = p.get('tempo')
-  if q:
+  if q == 'string':
+    # a tempo word without a beat: no tempo is notated (ABC 2.1 3.1.8)
+    lines.append('Q:' + fs + '"Andante"' + cm)
+  elif q:
     rate = c.int('q_rate', 30, 240)
     if q == 'deprecated':
-      lines.append('Q:%s' % tx.num(rate))
+      lines.append('Q:%s%s%s' % (fs, tx.num(rate), cm))
       st['tempo'] = (None, rate)
     else:
-      lines.append('Q:%s=%s' % (q, tx.num(rate)))
-      st['tempo'] = (Fraction(q), rate)
+      # 'n/d=r', several beats 'a/b c/d=r' (the beat is their sum, ABC 2.1
+      # 3.1.8), optionally with a tempo word before or after
+      lines.append('Q:%s%s%s=%s%s%s' % (fs, p.get('tempo_label', ''), q,
+                                       tx.num(rate),
+                                       p.get('tempo_suffix', ''), cm))
+      st['tempo'] = (sum(Fraction(b_) for b_ in q.split()), rate)
   tonic, mode = p.get('key', ('C', ''))
   modetxt = {'': '', 'm': 'm'}.get(mode, mode)
-  ktxt = 'K:' + tonic + modetxt
+  if p.get('mode_text') is not None:
+    modetxt = p['mode_text']
+  ktxt = 'K:' + fs + tonic + modetxt
   # explicit accidentals: K:<key> [exp] ^f _b =c
   kx = p.get('key_explicit')
   st['key_explicit'] = {}
@@ -229,7 +270,7 @@ def _header(c, tx, p):
       a = c.choice('%skx_%s' % (p.get('pre', ''), letter), ['^', '_', '='])
       ktxt += ' ' + a + letter.lower()
       st['key_explicit'][letter.upper()] = _ACC[a]
-  lines.append(ktxt)
+  lines.append(ktxt + cm)
   st['key'] = (tonic, mode)
   return lines, st
 
@@ -301,7 +342,9 @@ def _expect(c, st, body, pb):
       if f == 'L':
         unit = v
       elif f == 'Q':
-        qpm = v[0] * 4 * v[1]
+        # the bare (deprecated) form counts unit note lengths as they are at
+        # that point of the tune
+        qpm = (v[0] if v[0] is not None else unit) * 4 * v[1]
         tempos.append((t, qpm))
       elif f == 'K':
         key_acc = _sig_accidentals(_key_sig(*v))
@@ -324,8 +367,20 @@ def h_tune(c):
   letters = p.get('letters', ['C', 'F', 'b'])
   accs = p.get('accs', [None, '^', '_', '='])
   octs = p.get('octs', ['', "'", ','])
+  sep = p.get('sep', ' ')
+  as_lines = p.get('field_lines')
+
+  def field_text(content):
+    # an information field inside the tune: inline '[L:1/4]' or, with
+    # field_lines, on a line of its own between two music lines
+    if not as_lines:
+      return '[' + content + ']'
+    lead = '' if (not text or text.endswith('\n')) else '\n'
+    return lead + content + (_COMMENT if p.get('decor') else '') + '\n'
+
   for i, form in enumerate(p['notes']):
-    if form in ('|', '||', '|:', ':|', ':|:', '::', '|::', '::|', '|]'):
+    if form in ('|', '||', '|:', ':|', ':|:', '::', '|::', '::|', '|]',
+                '::::'):
       body.append(dict(kind='bar', text=form))
       text += form
       continue
@@ -333,30 +388,46 @@ def h_tune(c):
       body.append(dict(kind='broken', text=form))
       text += form
       continue
+    if form in (' ', '\n'):
+      # a blank between two symbols / the tune goes on on the next line:
+      # neither notates anything (a line break is not a bar line)
+      if not (form == '\n' and (not text or text.endswith('\n'))):
+        text += form
+      continue
     if isinstance(form, list):  # inline field
       f = form[0]
       if f == 'L':
         d = c.choice('il_d', [4, 8, 16])
         body.append(dict(kind='field', field='L', value=Fraction(1, d)))
-        text += '[L:1/%s]' % tx.num(d)
+        text += field_text('L:1/%s' % tx.num(d))
       elif f == 'Q':
         nq = sum(1 for b_ in body if b_.get('field') == 'Q')
         rate = c.int('iq_rate' if not nq else 'iq%d_rate' % nq, 30, 240)
-        body.append(dict(kind='field', field='Q',
-                         value=(Fraction(form[1]), rate)))
-        text += '[Q:%s=%s]' % (form[1], tx.num(rate))
+        if form[1] is None:
+          body.append(dict(kind='field', field='Q', value=(None, rate)))
+          text += field_text('Q:%s' % tx.num(rate))
+        else:
+          body.append(dict(kind='field', field='Q',
+                           value=(Fraction(form[1]), rate)))
+          text += field_text('Q:%s=%s' % (form[1], tx.num(rate)))
       elif f == 'K':
         body.append(dict(kind='field', field='K', value=(form[1], form[2])))
-        text += '[K:%s%s]' % (form[1], form[2])
+        text += field_text('K:%s%s' % (form[1], form[2]))
       elif f == 'M':
         n2 = c.int('im_n', 1, 12)
         d2 = c.choice('im_d', [2, 4, 8])
         body.append(dict(kind='field', field='M', value=(n2, d2)))
-        text += '[M:%s/%s]' % (tx.num(n2), tx.num(d2))
+        text += field_text('M:%s/%s' % (tx.num(n2), tx.num(d2)))
+      elif f == 'T':
+        # a title inside the tune names a part; the tune keeps its titles
+        body.append(dict(kind='field', field='T', value=None))
+        text += field_text('T:part two')
       continue
     tok = _note(c, tx, i, letters, accs, octs, form)
     body.append(tok)
-    text += tok['text'] + ' '
+    text += tok['text'] + sep
+  if p.get('decor'):
+    text = text.rstrip('\n') + _COMMENT
   lines.append(text)
   abc = '\n'.join(lines) + '\n'
   restore = tx.install(ap)
@@ -422,17 +493,31 @@ def h_tune(c):
                                                       0)) % 12),
       c.eq(ns.key_signatures[0].mode, getattr(KS, _MODES[mode][1])))),
           'key tonic and mode as in the K: field')
+  c.check(len(ns.key_signatures) == len(want_ks) and bool(c.And(
+      [c.And(c.eq(a.key, _tonic_pc(k_[0])),
+             c.eq(a.mode, getattr(KS, _MODES[k_[1]][1])))
+       for a, (_, k_) in zip(ns.key_signatures, want_ks)])),
+          'key tonic and mode of every K: field, header and inline')
   if exp_notes:
     c.check(c.approx(ns.total_time, exp_notes[-1][2], 1e-9),
             'total_time is the end of the last note')
+  # no dynamics are notated: every note sounds, all at one (default) dynamic
+  vel = [n.velocity for n in ns.notes]
+  c.check(bool(c.And([c.And(v >= 1, v <= 127, c.eq(v, vel[0]))
+                      for v in vel] or [True])),
+          'notes carry one audible default velocity (1..127)')
   order = p.get('expanded')
   if order is not None:
     # the notated repeat structure, unrolled by the real expand_section_groups
     sl = c.mod('sequences_lib')
+    before = c.snapshot(ns)
     ex, err2 = c.raises(sl.expand_section_groups, ns)
     c.check(err2 is None, 'the section structure can be expanded')
     if err2 is not None:
       return
+    c.check(ex is not ns and bool(c.msg_eq(ns, before)),
+            'expand_section_groups returns a copy and leaves the parsed tune '
+            'as it was')
     gotp = [n.pitch for n in sorted(ex.notes, key=lambda n: c.concretize(
         c.Floor(n.start_time * 1024)))] if False else [n.pitch for n in ex.notes]
     want = [exp_notes[i][0] for i in order]
@@ -449,6 +534,8 @@ def h_tune(c):
       tcur = tcur + d
     c.check(c.And(ok or [True]), 'expanded notes follow each other without '
                                  'gaps, each with its own duration')
+    c.check(c.approx(ex.total_time, tcur, 1e-9),
+            'the expanded tune lasts as long as the sections played')
 
 
 def h_tunebook(c):
@@ -486,6 +573,10 @@ def h_tunebook(c):
     return
   c.check(len(both[1]) == 1 and isinstance(both[1][0], ap.ABCParseError),
           'the unsupported tune is reported in the exception list')
+  if c.params.get('exc') and len(both[1]) == 1:
+    c.check(type(both[1][0]).__name__ == c.params['exc'],
+            'the exception names the construct (the error class documented '
+            'for it)')
   c.check(list(both[0]) == [1] and list(alone[0]) == [1] and not alone[1],
           'the other tune is returned')
   if list(both[0]) == [1] and list(alone[0]) == [1]:
@@ -529,10 +620,224 @@ def h_two_tunes(c):
         [c.eq(a, b[0]) for a, b in zip(got, exp_notes)] or [True])),
             'each tune has the pitches its own key and accidentals give, '
             'whatever the other tune declares')
+    ns = res[0][ti + 1]
+    KS = c.pb.NoteSequence.KeySignature
+    c.check(len(ns.notes) == len(exp_notes) and bool(c.And(
+        [c.And(c.approx(n.start_time, e[1], 1e-9),
+               c.approx(n.end_time, e[2], 1e-9))
+         for n, e in zip(ns.notes, exp_notes)] or [True])) and
+            bool(c.approx(ns.total_time, exp_notes[-1][2], 1e-9)),
+            'each tune starts at time 0 with its own onsets and durations')
+    c.check(bool(c.eq(ns.reference_number, ti + 1)) and
+            ns.sequence_metadata.title == 'first title; second' and
+            len(ns.key_signatures) == 1 and
+            bool(c.eq(ns.key_signatures[0].key, _tonic_pc(st['key'][0]))) and
+            bool(c.eq(ns.key_signatures[0].mode,
+                      getattr(KS, _MODES[st['key'][1]][1]))) and
+            len(ns.tempos) == 0 and len(ns.time_signatures) == 0,
+            'each tune has its own number, titles and key, and nothing of '
+            'the other tune')
+
+
+# ---------------------------------------------------------------------------
+# every key spelling: tonic letter x {natural, sharp, flat} x mode whose
+# signature has at most 7 sharps / flats (15 per mode, 105 in all), written in
+# the ways ABC 2.1 3.1.14 allows ("the spaces can be left out, capitalisation
+# is ignored for the modes and only the first three letters are parsed")
+_FIFTHS = {'F': -1, 'C': 0, 'G': 1, 'D': 2, 'A': 3, 'E': 4, 'B': 5}
+_MODE_SPELLINGS = {
+    '': ['', 'maj', ' major', 'Ion', ' IONIAN', ' Maj'],
+    'm': ['m', 'min', ' minor', 'Aeo', ' AEOLIAN', ' Min'],
+    'mix': ['mix', 'Mix', ' mixolydian', 'MIX', ' Mixolydian', ' MIXO'],
+    'dor': ['dor', 'Dor', ' dorian', 'DOR', ' Dorian', ' DORI'],
+    'phr': ['phr', 'Phr', ' phrygian', 'PHR', ' Phrygian', ' PHRY'],
+    'lyd': ['lyd', 'Lyd', ' lydian', 'LYD', ' Lydian', ' LYDI'],
+    'loc': ['loc', 'Loc', ' locrian', 'LOC', ' Locrian', ' LOCR'],
+}
+
+
+def _spelled_sig(tonic, mode):
+  """Signature of a key from the circle of fifths: a sharp on the tonic adds
+  seven sharps, a flat seven flats; the mode shifts as in _MODES."""
+  return (_FIFTHS[tonic[0]] + (7 if tonic.endswith('#') else
+                               -7 if tonic.endswith('b') else 0) +
+          _MODES[mode][0])
+
+
+def _all_keys():
+  out = []
+  for mode in ('', 'm', 'mix', 'dor', 'phr', 'lyd', 'loc'):
+    for letter in 'CDEFGAB':
+      for a in ('', '#', 'b'):
+        if -7 <= _spelled_sig(letter + a, mode) <= 7:
+          out.append([letter + a, mode])
+  return out
+
+
+def h_keys(c):
+  """A scale of all 14 note letters under one of the 105 key spellings: every
+  letter is raised / lowered as the signature says, and the key signature of
+  the NoteSequence names the tonic and the mode."""
+  ap = c.mod('abc_parser')
+  keys = c.params['keys']
+  tonic, mode = c.choice('key', keys)
+  si = c.choice('spelling', list(range(6)))
+  sig = _spelled_sig(tonic, mode)
+  ktxt = ('K: ' if si % 2 else 'K:') + tonic + _MODE_SPELLINGS[mode][si]
+  letters = 'CDEFGABcdefgab'
+  abc = '\n'.join(['X:1', 'T:scale', ktxt, ' '.join(letters)]) + '\n'
+  res, err = c.raises(ap.parse_abc_tunebook, abc)
+  c.check(err is None and not res[1] and list(res[0]) == [1],
+          'a tune in any key of at most 7 sharps / flats, in any mode and '
+          'spelling of the mode, parses')
+  if err is not None or list(res[0]) != [1]:
+    return
+  ns = res[0][1]
+  acc = _sig_accidentals(sig)
+  want = [_BASE[l] + acc[l.upper()] for l in letters]
+  got = [n.pitch for n in ns.notes]
+  c.check(len(got) == len(want) and bool(c.And(
+      [c.eq(a, b) for a, b in zip(got, want)] or [True])),
+          'every letter, in both octaves, is sharpened / flattened exactly as '
+          'the key signature says')
+  KS = c.pb.NoteSequence.KeySignature
+  c.check(len(ns.key_signatures) == 1 and bool(c.And(
+      c.eq(ns.key_signatures[0].key, _tonic_pc(tonic)),
+      c.eq(ns.key_signatures[0].mode, getattr(KS, _MODES[mode][1])))),
+          'key signature: tonic pitch class and mode as spelled')
+
+
+# ---------------------------------------------------------------------------
+# tunebooks of several tunes
+_BAD_KINDS = [
+    # (body lines, error class documented for the construct or None when only
+    #  "a tune that cannot be parsed is listed, nothing is raised" is claimed)
+    (['[CEG]2 C'], 'ChordError'),
+    (['(3CDE F'], 'TupletError'),
+    (['V:1', 'CDE'], 'MultiVoiceError'),
+    (['P:A', 'CDE'], 'PartError'),
+    (['C D |1 E :|2 F |'], 'VariantEndingError'),
+    (['C D # E'], 'InvalidCharacterError'),
+    (['C D z E'], 'ABCParseError'),        # rests: not in the supported subset
+    (['C D * E ?'], 'InvalidCharacterError'),
+    (['|:: C D :|'], 'ABCParseError'),     # three times ... twice
+    (['|: C D'], None),
+    ([':| C D'], None),
+    (['C ::: D'], None),
+    (['> C D'], None),
+    (['C >> > D'], None),
+    (['C D', 'L:x', 'E'], None),
+    (['C D', 'M:3', 'E'], None),
+    (['C', 'Q:fast', 'D'], None),
+]
+_BOOK_KEYS = ['C', 'G', 'F', 'D']
+_BOOK_PITCH = {'C': (65, 71, 60), 'G': (66, 71, 60), 'F': (65, 70, 60),
+               'D': (66, 71, 61)}   # F B C under each key
+
+
+def h_book(c):
+  """A tunebook of 1..4 tunes, good ones ('g', each in its own key and with
+  its own symbolic note length) and unparsable ones ('b'), with or without a
+  file header, separated as ABC 2.1 2.2.2 allows (one or more empty or blank
+  lines, any line ending): every good tune is returned under its X: number
+  exactly as notated, every bad one is listed - in file order - and nothing
+  is raised, except for a repeated X: number (documented)."""
+  ap = c.mod('abc_parser')
+  p = c.params
+  tx = _Text(c)
+  eol = p.get('eol', '\n')
+  sep = p.get('sep', '\n')
+  hdr_unit = p.get('hdr_unit')
+  hdr_meter = p.get('hdr_meter')
+  sections = []
+  if hdr_unit or hdr_meter:
+    h = ['%abc-2.1', 'O:nowhere']
+    if hdr_unit:
+      h.append('L:1/%d' % hdr_unit)
+    if hdr_meter:
+      h.append('M:%d/%d' % tuple(hdr_meter))
+    sections.append(h)
+  good, bad = [], []
+  for i, (kind, xref) in enumerate(zip(p['layout'], p['xrefs'])):
+    if kind == 'g':
+      key = _BOOK_KEYS[i % 4]
+      k = c.int('k%d' % i, 1, 4)
+      sections.append(['X:%d' % xref, 'T:tune %d' % i, 'K:' + key,
+                       'F%s B C' % tx.num(k)])
+      good.append((xref, i, key, k))
+    else:
+      lines, cls = _BAD_KINDS[c.choice('bad%d' % i, p['bad_kinds'])]
+      sections.append(['X:%d' % xref, 'T:tune %d' % i, 'K:C'] + list(lines))
+      bad.append(cls)
+  book = (eol + sep).join(eol.join(sec) for sec in sections)
+  if p.get('final_newline', True):
+    book += eol
+  restore = tx.install(ap)
+  try:
+    if p.get('via_file'):
+      import os  # pylint: disable=g-import-not-at-top
+      import tempfile  # pylint: disable=g-import-not-at-top
+      fd, path = tempfile.mkstemp(suffix='.abc')
+      try:
+        with os.fdopen(fd, 'w', newline='') as f:
+          f.write(book)
+        res, err = c.raises(ap.parse_abc_tunebook_file, path)
+      finally:
+        os.unlink(path)
+    else:
+      res, err = c.raises(ap.parse_abc_tunebook, book)
+  finally:
+    restore()
+  if p.get('dup'):
+    c.check(err is not None and
+            type(err).__name__ == 'DuplicateReferenceNumberError',
+            'two tunes with the same X: number raise '
+            'DuplicateReferenceNumberError')
+    return
+  c.check(err is None, 'parse_abc_tunebook(_file) does not raise')
+  if err is not None:
+    return
+  tunes, excs = res
+  c.check(len(excs) == len(bad) and all(
+      isinstance(e, ap.ABCParseError) and
+      (cls is None or type(e).__name__ == cls or
+       (cls == 'ABCParseError'))
+      for e, cls in zip(excs, bad)),
+          'one exception per unparsable tune, in file order, of the class '
+          'documented for the construct')
+  c.check(sorted(tunes) == sorted(x for x, _, _, _ in good),
+          'exactly the parsable tunes are returned, under their X: numbers')
+  if sorted(tunes) != sorted(x for x, _, _, _ in good):
+    return
+  unit = Fraction(1, hdr_unit) if hdr_unit else (
+      _unit_from_meter(c, tuple(hdr_meter) if hdr_meter else None))
+  for xref, i, key, k in good:
+    ns = tunes[xref]
+    d = unit * 4 * Fraction(1, 2)      # seconds per unit note at 120 qpm
+    want = [(_BOOK_PITCH[key][0], 0, k * d),
+            (_BOOK_PITCH[key][1], k * d, k * d + d),
+            (_BOOK_PITCH[key][2], k * d + d, k * d + 2 * d)]
+    c.check(len(ns.notes) == 3 and bool(c.And(
+        [c.And(c.eq(n.pitch, w[0]), c.approx(n.start_time, w[1], 1e-9),
+               c.approx(n.end_time, w[2], 1e-9))
+         for n, w in zip(ns.notes, want)])),
+            'each tune of the book has its own pitches (own key), onsets and '
+            'durations (unit length from the file header when there is one)')
+    c.check(bool(c.eq(ns.reference_number, xref)) and
+            ns.sequence_metadata.title == 'tune %d' % i and
+            len(ns.key_signatures) == 1 and
+            bool(c.eq(ns.key_signatures[0].key, _tonic_pc(key))) and
+            len(ns.tempos) == 0,
+            'each tune of the book has its own number, title and key')
+    c.check(len(ns.time_signatures) == (1 if hdr_meter else 0) and all(
+        bool(c.And(c.eq(ts.numerator, hdr_meter[0]),
+                   c.eq(ts.denominator, hdr_meter[1]), c.eq(ts.time, 0)))
+        for ts in ns.time_signatures),
+            'the meter of the file header applies to every tune')
 
 
 HARNESSES = {'h_tune': h_tune, 'h_tunebook': h_tunebook,
-             'h_two_tunes': h_two_tunes}
+             'h_two_tunes': h_two_tunes, 'h_keys': h_keys, 'h_book': h_book}
 
 
 
@@ -627,12 +932,106 @@ def jobs(tier):
     add('h_tune', notes=['|:', 'none', bar, 'none'] + (
         [':|'] if bar != ':|' else []), key=['C', ''], letters=['F'],
         accs=[None, '^', '_'], octs=[''])
+  # ---- audit round (2026-10-02): behaviours no quick job exercised ----------
+  plain = dict(key=['C', ''], letters=['C'], accs=[None], octs=[''])
+  # the MIDI pitch range at its edges: g'''' = 127, C,,,,, = 0, one semitone
+  # beyond either is reported
+  add('h_tune', notes=['none'], key=['C', ''], letters=['g', 'C'],
+      accs=[None, '^', '_'], octs=["''''", ',,,,,'])
+  # L:1 written without a slash, the smallest unit lengths, and the bare Q:
+  # form that counts them
+  add('h_tune', notes=['k', '/'], unit='plain', unit_ds=[1, 32, 64],
+      tempo='deprecated', **plain)
+  # tempo with several beats (their sum is the beat), with a tempo word before
+  # or after it, and a tempo word alone (no tempo)
+  add('h_tune', notes=['k', 'none'], tempo='1/4 3/8',
+      tempo_label='"Allegro" ', **plain)
+  add('h_tune', notes=['k', 'none'], tempo='3/8', tempo_suffix=' "Slowly"',
+      unit='frac', **plain)
+  add('h_tune', notes=['k', 'none'], tempo='string', **plain)
+  # blanks after the field colon, '%' comments behind field and music lines,
+  # notes written without blanks between them
+  add('h_tune', notes=['none', 'k', 'a/b', '|', '/'], decor=True, sep='',
+      meter='C|', unit='frac', unit_ds=[4, 16], tempo='1/2', key=['D', 'mix'],
+      letters=['F'], accs=[None], octs=[''])
+  # a tune body of several lines: a line break is not a bar line (accidentals
+  # carry on), fields on their own lines between music lines act like the
+  # inline ones, a T: line in the body leaves the titles alone
+  add('h_tune', notes=['none', '\n', 'none', '|', '\n', 'none'], key=['C', ''],
+      letters=['F'], accs=[None, '^', '_'], octs=[''])
+  add('h_tune', notes=['k', ['L'], 'k', ['Q', None], 'none'], field_lines=True,
+      tempo='1/4', **plain)
+  add('h_tune', notes=['none', ['K', 'A', ''], 'none', ['T'], ['M'], 'none'],
+      field_lines=True, decor=True, key=['F', ''], letters=['C', 'B'],
+      accs=[None], octs=[''])
+  # the bare inline [Q:r] counts the unit length in force where it stands
+  add('h_tune', notes=['k', ['L'], ['Q', None], 'k'], unit='frac', **plain)
+  # inline [K:] with a mode: key and mode of every key signature
+  add('h_tune', notes=['none', ['K', 'F#', 'm'], 'none', '|', ' ',
+                       ['K', 'Bb', 'lyd'], 'none'],
+      key=['Eb', ''], letters=['C', 'G', 'A'], accs=[None], octs=[''])
+  # the same tune without the blank between the bar line and the inline field,
+  # the way ABC 2.1 itself writes it ("...|[M:9/8] A2G F2E D2|]") (F-C04-e,
+  # fixed: the bar-line pattern [\[\]|]+ swallowed the '[' of the field, so
+  # 'C |[K:G] F' gave InvalidCharacterError and 'C|[M:6/8]D' RepeatParseError)
+  add('h_tune', notes=['none', '|', ['K', 'G', ''], 'none'], key=['C', ''],
+      letters=['F'], accs=[None], octs=[''])
+  add('h_tune', notes=['k', '||', ['M'], 'none'], key=['C', ''], letters=['C'],
+      accs=[None], octs=[''], meter='C', unit='frac')
+  add('h_tune', notes=['|:', 'k', ':|', ['L'], 'k'], key=['C', ''],
+      letters=['C'], accs=[None], octs=[''], tempo='1/4',
+      expanded=[0, 0, 1])
+  # repeats: colon-only counted repeat, double bar inside an open repeat (on a
+  # second line), two section symbols side by side, a tune without repeats
+  # (expansion is a copy), tempo / unit changes inside a repeated section
+  add('h_tune', notes=['|::', 'none', '::::', 'k', '::|'],
+      expanded=[0, 0, 0, 1, 1, 1], **base)
+  add('h_tune', notes=['|:', 'none', '\n', '||', 'k', ':|'],
+      expanded=[0, 1, 0, 1], **base)
+  add('h_tune', notes=['none', ':|', ' ', '|:', 'k', ':|'],
+      expanded=[0, 0, 1, 1], **base)
+  add('h_tune', notes=['none', '||', ' ', '|:', 'k', ':|', 'none'],
+      expanded=[0, 1, 1, 2], **base)
+  add('h_tune', notes=['none', 'k', '|', 'none'], expanded=[0, 1, 2], **base)
+  add('h_tune', notes=['|:', 'k', ['Q', '1/4'], 'none', ':|', ' ', ['L'],
+                       'none'],
+      tempo='3/8', expanded=[0, 1, 0, 1, 2], **plain)
+  # the remaining broken-rhythm marks
+  for br in ('>>>', '<<'):
+    add('h_tune', notes=['k', br, 'k'], key=['C', ''], letters=['C', 'G'],
+        accs=[None], octs=[''], unit='frac', tempo='1/4', budget=900)
+  # every key spelling (105) x every way of writing the mode, all 14 letters
+  allk = _all_keys()
+  for i in range(0, len(allk), 21):
+    add('h_keys', keys=allk[i:i + 21])
+  # tunebook shapes
+  nb = len(_BAD_KINDS)
+  add('h_book', layout='gbg', xrefs=[1, 2, 3], bad_kinds=list(range(nb)))
+  add('h_book', layout='bgbg', xrefs=[4, 3, 2, 1], bad_kinds=[0, 1, 5])
+  add('h_book', layout='bb', xrefs=[1, 2], bad_kinds=[2, 3, 4, 8])
+  add('h_book', layout='ggg', xrefs=[7, 3, 5], sep=' \t ' + '\r\n\r\n',
+      eol='\r\n', final_newline=False)
+  add('h_book', layout='g', xrefs=[2], final_newline=False)
+  add('h_book', layout='bgg', xrefs=[1, 2, 3], bad_kinds=[0, 6], hdr_unit=4,
+      hdr_meter=[3, 4], sep='\n\n')
+  add('h_book', layout='gg', xrefs=[1, 2], hdr_meter=[2, 4])
+  add('h_book', layout='gbg', xrefs=[5, 6, 7], bad_kinds=[1, 7], via_file=True,
+      hdr_unit=16)
+  add('h_book', layout='gbg', xrefs=[2, 1, 2], bad_kinds=[0], dup=True)
+  # NOT CLAIMED (outside the quantifier: headers outside the grammar): tunes whose header cannot be read
+  # make parse_abc_tunebook RAISE instead of being listed, which aborts every
+  # other tune of the book although the docstring documents only
+  # DuplicateReferenceNumberError as raised and "exceptions: a list of
+  # exceptions for tunes that could not be parsed":
+  #   'X:1\nT:t\nK:G#\nC\n'       -> KeyError('g#')   (8 sharps: no such key)
+  #   'X:abc\nT:t\nK:C\nC\n'      -> ValueError (int('abc'))
+  #   'X:1\nT:t\nL:1/0\nK:C\nC\n' -> ZeroDivisionError (Fraction(1, 0))
   # tunebooks
-  for bad in (['[CEG]2 C'], ['(3CDE F'], ['V:1', 'CDE'], ['P:A', 'CDE'],
-              ['C D |1 E :|2 F |'], ['C D E']):
-    if bad == ['C D E']:
-      continue
-    add('h_tunebook', bad=bad)
+  for bad, exc in ((['[CEG]2 C'], 'ChordError'), (['(3CDE F'], 'TupletError'),
+                   (['V:1', 'CDE'], 'MultiVoiceError'),
+                   (['P:A', 'CDE'], 'PartError'),
+                   (['C D |1 E :|2 F |'], 'VariantEndingError')):
+    add('h_tunebook', bad=bad, exc=exc)
   add('h_tunebook', bad=['[CEG]2 C'], order=[2, 1])
   add('h_tunebook', bad=['(3CDE F'], comment_first=True)
   add('h_tunebook', bad=['V:1', 'CDE'], header=['L:1/4', 'M:3/4'])
